@@ -45,6 +45,10 @@ def gen(ctx):
     base = list(strings(ALPH, L))
     longs = [rand_str(rng, ALPH, rng.choice([6, 7, 8, 15, 16, 17, 63, 64, 65, 255, 256, 1000, rng.randrange(6, 3000)])) for _ in range(60 if q else 400)]
     longs += [b' ' * 50, b'\t\r\n ' * 20 + b'x' + b' \n' * 30, b' ' * 40 + b'a b' + b' ' * 40]
+    # every length around the sizes a fixed scratch buffer would have, blanks at both ends, mixed case inside
+    BLENS = list(range(6, 140)) + [254, 255, 256, 257, 258, 511, 512, 513, 1023, 1024, 1025, 4095, 4096, 4097]
+    for n in BLENS:
+        longs.append(b' \t'[n % 2:][:1] + bytes((0x41 if j % 5 == 0 else 0x61) + (j * 7 + n) % 26 for j in range(n - 2)) + b'\n')
     # every byte value at both edges, alone, next to a blank and in the middle: only blank, tab, CR, LF may be stripped
     # (not VT, FF, NBSP, 0x85 ... whatever a locale calls space)
     edges = []
@@ -54,7 +58,7 @@ def gen(ctx):
     for s in base + longs + edges:
         for op in ('trim', 'trimh', 'trimt', 'rev'):
             c.add('%s %s' % (op, hexs(s)), 'spec %s %s' % (op, hexs(s)))
-    cs = [bytes([x]) for x in range(1, 256)] + list(strings(CASEALPH, 2 if q else 3)) + base[:2000] + longs[:40]
+    cs = [bytes([x]) for x in range(1, 256)] + list(strings(CASEALPH, 2 if q else 3)) + base[:2000] + longs[:40] + longs[-len(BLENS):]
     cs += [bytes(rng.randrange(1, 256) for _ in range(rng.randrange(2, 300))) for _ in range(100)]
     for s in cs:
         for op in ('upper', 'lower'):
@@ -63,7 +67,8 @@ def gen(ctx):
     # ---- unchar
     c = Cases()
     ua = [0x22, 0x61, 0x7a, 0x20, 0xff, 0x80]
-    for s in list(strings(ua, 4 if q else 5)) + [rand_str(rng, ua, rng.randrange(5, 200)) for _ in range(100)]:
+    for s in list(strings(ua, 4 if q else 5)) + [rand_str(rng, ua, rng.randrange(5, 200)) for _ in range(100)] + \
+            [b'"' + bytes(0x61 + (j * 3 + n) % 26 for j in range(n - 2)) + b'"' for n in BLENS]:
         for hd, tl in ((0x22, 0x22), (0x61, 0x7a), (0xff, 0x80), (0x22, 0x20), (0, 0x22)):
             c.add('unchar %s %d %d' % (hexs(s), hd, tl), 'spec unchar %s %d %d' % (hexs(s), hd, tl))
     fam['unchar'] = c
@@ -179,6 +184,12 @@ def gen(ctx):
             for off in (range(0, n + 1) if n <= 5 else sorted(set([0, 1, n, rng.randrange(0, n)]))):
                 c.add('tok %s %s %d' % (hexs(s), hexs(d), off), 'spec tok %s %s' % (hexs(d), hexs(s[off:])))
         c.add('tok %s %s %d' % (hexs(s), hexs(b','), n + 1), None, incontract=False)     # offset beyond the terminator
+    # every source length around the sizes a fixed scratch buffer would have (the last field ends with the string / with a delimiter)
+    for n in list(range(6, 140)) + [254, 255, 256, 257, 258, 511, 512, 513, 1023, 1024, 1025, 4095, 4096, 4097]:
+        for tail in (b'z', b','):
+            s = bytes((0x2c if j % 7 == 3 else 0x61 + (j * 3 + n) % 26) for j in range(n - 1)) + tail
+            c.add('tokz %s %s' % (hexs(s), hexs(b',')), 'spec tokz %s %s' % (hexs(s), hexs(b',')))
+            c.add('tok %s %s %d' % (hexs(s), hexs(b',;'), n - 2), 'spec tok %s %s' % (hexs(b',;'), hexs(s[n - 2:])))
     # a tokenisation abandoned after its first field must not influence a later one with other delimiters
     # (the harness runs all operations in one process, so hidden static state would carry over)
     for d1, d2 in ((b'=', b','), (b';', b','), (b',;', b' '), (b'\xff', b','), (b'a', b';')):
